@@ -257,8 +257,9 @@ def floor(x):
     return z3.ToInt(x)
 
 
-def ForAllInt(lo, hi, f, name="q"):
-    """forall j in [lo, hi): f(j).  Concrete bounds -> evaluated as a conjunction."""
+def ForAllInt(lo, hi, f, name="q", pat=None):
+    """forall j in [lo, hi): f(j).  Concrete bounds -> evaluated as a conjunction.
+    `pat(j)` optionally gives the instantiation trigger (a term containing j)."""
     if not any_z3(lo, hi):
         rs = [f(j) for j in range(lo, hi)]
         return And(*rs)
@@ -266,7 +267,16 @@ def ForAllInt(lo, hi, f, name="q"):
     body = f(j)
     if body is True:
         return True
-    return z3.ForAll([j], z3.Implies(z3.And(to_z3(lo) <= j, j < to_z3(hi)), to_z3(body)))
+    imp = z3.Implies(z3.And(to_z3(lo) <= j, j < to_z3(hi)), to_z3(body))
+    if pat is not None:
+        try:
+            pt = pat(j)
+            if "If(" in str(pt):
+                raise z3.Z3Exception("ite in pattern")
+            return z3.ForAll([j], imp, patterns=[pt])
+        except z3.Z3Exception:
+            pass
+    return z3.ForAll([j], imp)
 
 
 def ExistsInt(lo, hi, f, name="e"):
